@@ -42,59 +42,15 @@ def encoder_table(ctx, prog):
     """byte -> emitted byte sequence of XdlEncoder::new_string (None = \\u00XX form)"""
     f = fn1(prog, 'asl::XdlEncoder::new_string', '(const char *)')
     ctx.analysed(f)
-    sw = [s_ for s_ in ir.walk_stmts(f['body']) if s_.get('k') == 'switch']
-    if len(sw) != 1:
-        raise AnalysisBroken('new_string: escape switch not found')
-    sw = sw[0]
-    cvar = None
-    for s_ in ir.walk_stmts(f['body']):
-        if s_.get('k') == 'while' and s_.get('cv'):
-            cvar = s_['cv']
-    if cvar is None:
-        raise AnalysisBroken('new_string: character loop not found')
-    table = {}
-    default = None
-    for st in sw['body']['s']:
-        labels = []
-        x = st
-        isdef = False
-        while x.get('k') in ('case', 'default'):
-            if x['k'] == 'case':
-                labels.append(x.get('v'))
-            else:
-                isdef = True
-            x = x['sub']
-        lits = [w['b'] for w in ir.stmt_exprs(x) if w.get('k') == 'str']
-        for l in labels:
-            if lits:
-                table[l & 255] = list(lits[0])
-        if isdef:
-            default = x
-    if default is None:
-        raise AnalysisBroken('new_string: default branch not found')
-    # default: if ((unsigned char)c < ' ') \\u%04x else raw
-    uset = set()
-    fmt = None
-    if default.get('k') == 'if':
-        try:
-            uset = bytesets.byteset(prog, f, default['c'], lambda e: e.get('k') == 'var' and e.get('id') == cvar['id'], signed=True)
-        except bytesets.Undecidable as ex:
-            raise AnalysisBroken('new_string: control-character test not evaluable: %s' % ex)
-        for w in ir.stmt_exprs(default['then']):
-            if w.get('k') == 'str' and b'%' in bytes(w['b']):
-                fmt = bytes(w['b']).decode('latin-1')
-    ctx.evaluations += 256
-    out = {}
-    for b in range(1, 256):
-        if b in table:
-            out[b] = table[b]
-        elif b in uset:
-            if fmt in ('\\u%04x', '\\u%04X'):
-                out[b] = [ord(ch) for ch in ('\\u%04x' % b)]
-            else:
-                out[b] = None
-        else:
-            out[b] = [b]
+    import emit
+    try:
+        emitted, _ = emit.emit_table(prog, f, '_out')
+    except emit.Unresolved as u:
+        raise AnalysisBroken('new_string: %s' % u)
+    ctx.evaluations += 255
+    fmts = [bytes(w['b']).decode('latin-1') for e in fn_exprs(f) if e.get('k') == 'call' and e.get('fn') in ('snprintf', 'sprintf') for w in walk_expr(e) if w.get('k') == 'str']
+    fmt = fmts[0] if fmts else None
+    out = dict((b, list(v)) for b, v in emitted.items())
     return f, out, fmt
 
 
